@@ -78,7 +78,7 @@ func (cw *ccWorld) addrN(raw []byte) int {
 }
 
 func (cw *ccWorld) swapTerm(s *fpb.Swap) string {
-	sym, g := cw.tokN(s.GetToken())
+	sym, g := cw.tokN3(s.GetToken())
 	return fmt.Sprintf("SW %d %d %d %d %s %d %d %d", cw.addrN(s.GetCreator()), cw.addrN(s.GetOwner()), sym, g,
 		coqZ(new(big.Int).SetBytes(s.GetAmount())), cw.chNum(s.GetFrom()), cw.chNum(s.GetTo()), swHashN(s.GetHash()))
 }
